@@ -59,6 +59,7 @@ macro_rules! c03_fisher {
     };
 }
 //@ id: c03_fisher_f_f32
+//@ besteffort: yes
 //@ prop: C03
 //@ tier: thorough
 //@ cap: 3600
